@@ -361,6 +361,125 @@ def run(chk):
     chk.oracle('expansion_property', ocases, o_expand,
                nontrivial_fn=lambda c: '|D' in c[1] or '|L' in c[1], key_fn=lambda c: line(c))
 
+    # ------------------------------------------------------------------ histories: state must not leak between calls
+    # expand A, derive B from A through the ordinary API (new object or in place), expand B: must equal the expansion of a FRESH
+    # object rebuilt from B's fields, and the model on B's fields; earlier expansions are re-issued afterwards and at the end
+    HIST = [('reverse',), ('reverse_swap',), ('shift',), ('shuffle',), ('slice',), ('sort_residues',), ('copy',), ('deepcopy',),
+            ('condense_static_mods',), ('add_internal_mod',), ('pop_internal_mod',), ('set_sequence',)]
+
+    def derive(a, h, inplace):
+        """B = op(A): a new object, or A itself edited in place"""
+        import copy as _cp
+        kind = h[0]
+        n = len(a)
+        if kind == 'copy':
+            return a.copy()
+        if kind == 'deepcopy':
+            return _cp.deepcopy(a)
+        if kind == 'add_internal_mod':
+            b = a if inplace else a.copy()
+            b.add_internal_mod(h[1] % n, pp.Mod('Oxidation', 1), append=True)
+            return b
+        if kind == 'pop_internal_mod':
+            b = a if inplace else a.copy()
+            if b._internal_mods:
+                b.pop_internal_mod(sorted(b._internal_mods)[h[1] % len(b._internal_mods)])
+                if not b._internal_mods:
+                    b._internal_mods = None
+            return b
+        if kind == 'set_sequence':
+            b = a if inplace else a.copy()
+            b.sequence = b.sequence[::-1]
+            return b
+        args = {'reverse': (), 'reverse_swap': (), 'shift': (h[1] % (n + 1),), 'shuffle': (h[1],), 'sort_residues': (),
+                'slice': (min(h[1] % n, h[2] % n), max(h[1] % n, h[2] % n) + 1), 'condense_static_mods': ()}[kind]
+        name = 'reverse' if kind == 'reverse_swap' else kind
+        kw = {'swap_terms': True} if kind == 'reverse_swap' else {}
+        if inplace:
+            r = getattr(a, name)(*args, inplace=True, **kw)
+            return a if r is None else r
+        return getattr(a, name)(*args, **kw)
+
+    hcases = []
+    hsrc = anns if tier != 'quick' else anns[:60]
+    for a in hsrc:
+        d = annot.dump(a, sort_internal=False)
+        for _ in range(3):
+            h = rng.choice(HIST) + (rng.randint(0, 11), rng.randint(0, 11))
+            inplace = rng.random() < 0.35 and h[0] not in ('copy', 'deepcopy')
+            op = rng.choice(OPS)
+            k = rng.choice([None, 1, 2, 2, 3])
+            try:
+                b0 = derive(annot.undump(d), h, inplace)     # derived from a fresh object, nothing expanded before
+            except Exception:  # noqa
+                continue
+            nb = len(b0)
+            if nb == 0 or expected_count(op, nb, nb if k is None else k) > limit:
+                k = 1
+            hcases.append((op, d, k, list(h), inplace, annot.dump(b0, sort_internal=False)))
+            chk.count('history_' + h[0] + ('_inplace' if inplace else ''))
+
+    def dumps_of(res):
+        return '~'.join(annot.dump(r) for r in res)
+
+    def run_history(c):
+        """the call sequence on live objects; returns (dumps of expand(B), description of the calls, A, B, first answers)"""
+        op, d, k, h, inplace, _ = c
+        a = annot.undump(d)
+        calls = [f'A = <{a.serialize()}>']
+        first = {}
+        for o in OPS:                      # every method once on A (size 1), then the one under test with its size
+            first[(o, 1)] = dumps_of(getattr(a, impl_fn(o))(1))
+            calls.append(f'A.{impl_fn(o)}(1)')
+        ka = k if expected_count(op, len(a), len(a) if k is None else k) <= limit else 1
+        first[(op, ka)] = dumps_of(getattr(a, impl_fn(op))(ka))
+        calls.append(f'A.{impl_fn(op)}({ka})')
+        b = derive(a, tuple(h), inplace)
+        calls.append(f'B = A.{h[0]}{tuple(h[1:])}' + (' [inplace]' if inplace else ''))
+        rb = dumps_of(getattr(b, impl_fn(op))(k))
+        calls.append(f'B.{impl_fn(op)}({k})  with B = <{b.serialize()}>')
+        return rb, calls, a, b, first
+
+    def h_impl(c):
+        return run_history(c)[0]
+
+    for i in range(0, len(hcases), 250):
+        chk.correspond('expansions_after_history', DRV, hcases[i:i + 250], lambda c: f'{c[0]}\t{c[5]}\t{c[2]}', h_impl,
+                       compare=cmp_, nontrivial_fn=lambda c, im: im.count('~') >= 1)
+
+    live = []
+
+    def o_history(c):
+        op, d, k, h, inplace, db = c
+        rb, calls, a, b, first = run_history(c)
+        if annot.dump(b, sort_internal=False) != db:
+            return f'{calls[-2]} gives {annot.dump(b, sort_internal=False)} after the expansions of A, {db} on a fresh A'
+        fresh = annot.undump(annot.dump(b, sort_internal=False))
+        rf = dumps_of(getattr(fresh, impl_fn(op))(k))
+        if rb != rf:
+            return 'call sequence ' + ' ; '.join(calls) + f' -> {rb[:300]} but a fresh object with the fields of B gives {rf[:300]}'
+        if dumps_of(getattr(b, impl_fn(op))(k)) != rb:
+            return 'call sequence ' + ' ; '.join(calls) + ' ; the same call again gives a different answer'
+        if not inplace:
+            for (o, kk), want in first.items():
+                if dumps_of(getattr(a, impl_fn(o))(kk)) != want:
+                    return 'call sequence ' + ' ; '.join(calls) + f' ; A.{impl_fn(o)}({kk}) again differs from its first answer'
+        if len(live) < 80:
+            live.append((b, op, k, rf, calls))
+        return None
+
+    chk.oracle('expansion_after_history', hcases, o_history, nontrivial_fn=lambda c: '|D' in c[5],
+               key_fn=lambda c: repr(c[:5]))
+
+    def o_reissue(i):
+        b, op, k, want, calls = live[i]
+        got = dumps_of(getattr(b, impl_fn(op))(k))
+        if got != want:
+            return 'call sequence ' + ' ; '.join(calls) + ' ; ... ; the same call at the end of the run gives ' + got[:300] + \
+                   ' instead of ' + want[:300]
+        return None
+    chk.oracle('reissue_at_end_of_run', list(range(len(live))), o_reissue, key_fn=lambda i: 'live%d' % i)
+
     reach.__exit__()
     rep = reach.report()
     chk.notes.append({'reach_of_modelled_functions': rep})
